@@ -105,6 +105,24 @@ package chord
 //@   ensures local-handling-is-success-or-retryable: local ==> (err == nil || chord.retryableChord(err))
 //@   ensures success-hands-over: (local && err == nil) ==> (len(succs) >= 1 && n.predecessor == joiner && n.surrogate == joiner)
 //@   ensures refusal-changes-no-pointer: (local && err != nil) ==> (n.predecessor == old(n.predecessor) && n.surrogate == old(n.surrogate))
+// C06 / C07 / C05: the membership lock around the hand-over
+//@   ghost tries int = 0
+//@   ghost took bool = false
+//@   ghost sets int = 0
+//@   ghost transfers int = 0
+//@   ghost terr error = nil
+//@   at call Transition#*: assert the-lock-is-a-cas-from-active-to-transferring-taken-before-anything-is-touched: callarg0 == n.state && callarg1 == chord.Active && callarg2 == chord.Transferring && tries == 0 && sets == 0 && transfers == 0 && n.predecessor == old(n.predecessor) && n.surrogate == old(n.surrogate)
+//@   at after call Transition#*: ghost took := callresult1
+//@   at after call Transition#*: ghost tries := tries + 1
+//@   at $1/call Set#1: assert only-a-held-lock-is-released-and-by-setting-active: callarg0 == n.state && callarg1 == chord.Active && took && sets == 0
+//@   at $1/call Set#1: ghost sets := sets + 1
+//@   at call transferKeysUpward#*: assert keys-move-to-the-joiner-only-under-the-lock-from-the-old-predecessor: took && sets == 0 && transfers == 0 && any(callarg2) == any(old(n.predecessor)) && any(callarg3) == any(joiner) && n.surrogate == old(n.surrogate)
+//@   at after call transferKeysUpward#*: ghost terr := callresult
+//@   at after call transferKeysUpward#*: ghost transfers := transfers + 1
+//@   ensures local-a-refused-request-leaves-the-lifecycle-word-alone: (local && !took) ==> (sets == 0 && transfers == 0 && err == chord.ErrJoinInvalidState)
+//@   ensures local-a-failed-hand-over-releases-the-lock: (took && err != nil) ==> sets == 1
+//@   ensures local-a-successful-hand-over-keeps-the-lock-for-the-joiner-to-release: (local && err == nil) ==> (took && sets == 0 && transfers == 1 && terr == nil)
+//@   ensures local-a-failed-transfer-fails-the-join: (transfers == 1 && terr != nil) ==> err == chord.ErrJoinTransferFailure
 
 // ---- C14: every RemoteNode method maps the RPC error with chord.ErrorMapper
 
@@ -275,3 +293,218 @@ package chord
 //@   at after call FinishLeave#1: ghost rpcErr := callresult1
 //@   ensures rpc-errors-are-mapped: rpcErr != nil ==> err == chord.ErrorMapper(rpcErr)
 //@   ensures rpc-success-is-not-an-error-of-the-call: (rpcErr == nil && err != nil) ==> true
+
+// ---- C06 / C07: the lifecycle word as membership lock. A node holds its own lock while its state is Joining,
+// Transferring or Leaving; the only ways in are the compare-and-swap transitions Inactive->Joining,
+// Active->Transferring and Active->Leaving, so two membership changes cannot hold one node at a time (C13 proves the
+// CAS itself). What is proved below, over the calls each function makes (ghost call log), for every outcome of every
+// remote call: a refused request leaves the state alone and returns a retryable error; a lock that was taken is
+// released on every failure path, with the right call on the right node; success keeps the locks for the party that
+// releases them later.
+
+//@ func (n *LocalNode) RequestToLeave(leaver chord.VNode) (err error)
+//@   opt frame=off
+//@   safety off
+//@   requires started: n.state != nil && n.state.history != nil
+//@   ghost tries int = 0
+//@   ghost took bool = false
+//@   ghost sets int = 0
+//@   at call Transition#*: assert the-lock-is-a-cas-from-active-to-transferring: callarg0 == n.state && callarg1 == chord.Active && callarg2 == chord.Transferring && tries == 0
+//@   at after call Transition#*: ghost took := callresult1
+//@   at after call Transition#*: ghost tries := tries + 1
+//@   at call Set#?: ghost sets := sets + 1
+//@   ensures local-granted-exactly-when-the-cas-won: tries == 1 && (err == nil) == took && sets == 0
+//@   ensures a-refusal-is-retryable: err != nil ==> err == chord.ErrLeaveInvalidState
+
+//@ func (n *LocalNode) FinishLeave(stabilize bool, release bool) (err error)
+//@   opt frame=off
+//@   safety off
+//@   requires started: n.state != nil && n.state.history != nil
+//@   ghost tries int = 0
+//@   ghost took bool = false
+//@   ghost sets int = 0
+//@   at call Transition#*: assert the-release-is-a-cas-from-transferring-to-active: callarg0 == n.state && callarg1 == chord.Transferring && callarg2 == chord.Active && tries == 0 && release
+//@   at after call Transition#*: ghost took := callresult1
+//@   at after call Transition#*: ghost tries := tries + 1
+//@   at call Set#?: ghost sets := sets + 1
+//@   ensures local-release-attempted-exactly-when-asked: tries == (release ? 1 : 0) && sets == 0
+//@   ensures local-a-release-that-found-no-lock-is-reported: (release && !took) ==> err == chord.ErrLeaveInvalidState
+//@   ensures local-otherwise-success: (!release || took) ==> err == nil
+
+//@ func (n *LocalNode) FinishJoin(stabilize bool, release bool) (err error)
+//@   opt frame=off
+//@   safety off
+//@   requires started: n.state != nil && n.state.history != nil
+//@   ghost tries int = 0
+//@   ghost took bool = false
+//@   ghost sets int = 0
+//@   at call Transition#*: assert the-release-is-a-cas-from-transferring-to-active: callarg0 == n.state && callarg1 == chord.Transferring && callarg2 == chord.Active && tries == 0 && release
+//@   at after call Transition#*: ghost took := callresult1
+//@   at after call Transition#*: ghost tries := tries + 1
+//@   at call Set#?: ghost sets := sets + 1
+//@   ensures local-release-attempted-exactly-when-asked: tries == (release ? 1 : 0) && sets == 0
+//@   ensures local-a-release-that-found-no-lock-is-reported: (release && !took) ==> err == chord.ErrJoinInvalidState
+//@   ensures local-otherwise-success: (!release || took) ==> err == nil
+
+//@ func (n *LocalNode) executeLeave() (pre chord.VNode, succ chord.VNode, err error)
+//@   opt frame=off
+//@   safety off
+//@   requires started: n.state != nil && n.state.history != nil
+//@   ghost asked int = 0
+//@   ghost rerr error = nil
+//@   ghost tries int = 0
+//@   ghost took bool = false
+//@   ghost succReleased int = 0
+//@   ghost localReleased int = 0
+//@   ghost transfers int = 0
+//@   ghost terr error = nil
+//@   at call RequestToLeave#*: assert asks-its-successor-once-naming-itself-as-the-leaver: any(callrecv) == any(succ) && asked == 0 && cast(callarg0, "*LocalNode") == n
+//@   at after call RequestToLeave#*: ghost rerr := callresult
+//@   at after call RequestToLeave#*: ghost asked := asked + 1
+//@   at call Transition#*: assert the-local-lock-is-a-cas-from-active-to-leaving: callarg0 == n.state && callarg1 == chord.Active && callarg2 == chord.Leaving && tries == 0
+//@   at after call Transition#*: ghost took := callresult1
+//@   at after call Transition#*: ghost tries := tries + 1
+//@   at call FinishLeave#*: assert only-a-held-successor-lock-is-released-and-with-the-release-flag: any(callrecv) == any(succ) && asked == 1 && rerr == nil && succReleased == 0 && callarg0 == false && callarg1 == true
+//@   at call FinishLeave#*: ghost succReleased := succReleased + 1
+//@   at call Set#*: assert the-held-local-lock-is-released-by-setting-active: callarg0 == n.state && callarg1 == chord.Active && took && localReleased == 0
+//@   at call Set#*: ghost localReleased := localReleased + 1
+//@   at call transferKeysDownward#*: assert keys-move-to-the-successor-only-under-both-locks: took && asked == 1 && rerr == nil && succReleased == 0 && localReleased == 0 && any(callarg2) == any(succ) && transfers == 0
+//@   at after call transferKeysDownward#*: ghost terr := callresult
+//@   at after call transferKeysDownward#*: ghost transfers := transfers + 1
+//@   ensures local-a-failed-attempt-releases-every-lock-it-took: err != nil ==> ((took ==> localReleased == 1) && ((asked == 1 && rerr == nil) ==> succReleased == 1))
+//@   ensures local-success-keeps-both-locks-and-has-moved-the-keys: (err == nil && asked == 1) ==> (rerr == nil && took && localReleased == 0 && succReleased == 0 && transfers == 1 && terr == nil && cast(n.surrogate, "*LocalNode") == n)
+//@   ensures local-the-lone-node-shortcut-needs-both-neighbours-to-be-the-node-itself: (err == nil && asked == 0) ==> (pre != nil && succ != nil && pre.ID() == n.ID() && succ.ID() == n.ID() && tries == 0 && transfers == 0)
+//@   ensures local-a-failed-transfer-fails-the-attempt: (transfers == 1 && terr != nil) ==> err == terr
+
+// Join: Inactive->Joining is the joiner's own lock; a failed join gives it back (state Inactive again); on success
+// the predecessor is told to stabilize first, then the joiner becomes Active, and only then is the successor's
+// Transferring lock released, in that order.
+//@ func (n *LocalNode) Join(peer chord.VNode) (err error)
+//@   opt frame=off
+//@   safety off
+//@   requires started: n.state != nil && n.state.history != nil
+//@   ghost tries int = 0
+//@   ghost took bool = false
+//@   ghost joins int = 0
+//@   ghost jerr error = nil
+//@   ghost jpred chord.VNode = nil
+//@   ghost jsuccs []chord.VNode
+//@   ghost backInactive int = 0
+//@   ghost active int = 0
+//@   ghost advisory int = 0
+//@   ghost released int = 0
+//@   at call Transition#*: assert the-joiners-lock-is-a-cas-from-inactive-to-joining: callarg0 == n.state && callarg1 == chord.Inactive && callarg2 == chord.Joining && tries == 0
+//@   at after call Transition#*: ghost took := callresult1
+//@   at after call Transition#*: ghost tries := tries + 1
+//@   at call executeJoin#*: assert joins-only-under-its-own-lock: took && joins == 0
+//@   at after call executeJoin#*: ghost jpred := callresult0
+//@   at after call executeJoin#*: ghost jsuccs := callresult1
+//@   at after call executeJoin#*: ghost jerr := callresult2
+//@   at after call executeJoin#*: ghost joins := joins + 1
+//@   at call Set#*: assert state-is-set-only-to-give-up-or-to-finish: callarg0 == n.state && took && joins == 1 && ((jerr != nil && callarg1 == chord.Inactive && backInactive == 0 && active == 0) || (jerr == nil && callarg1 == chord.Active && advisory == 1 && active == 0 && released == 0))
+//@   at call Set#*: ghost backInactive := backInactive + (callarg1 == chord.Inactive ? 1 : 0)
+//@   at call Set#*: ghost active := active + (callarg1 == chord.Active ? 1 : 0)
+//@   at call startTasks#*: assert the-returned-neighbours-are-installed-before-the-periodic-tasks-start: joins == 1 && jerr == nil && n.predecessor == jpred && n.successors == jsuccs && advisory == 0 && active == 0
+//@   at call FinishJoin#*: assert predecessor-advisory-first-then-successor-release-after-becoming-active: joins == 1 && jerr == nil && ((callarg0 == true && callarg1 == false && any(callrecv) == any(jpred) && advisory == 0 && active == 0 && released == 0) || (callarg0 == false && callarg1 == true && len(jsuccs) >= 1 && any(callrecv) == any(jsuccs[0]) && advisory == 1 && active == 1 && released == 0))
+//@   at call FinishJoin#*: ghost advisory := advisory + (callarg0 ? 1 : 0)
+//@   at call FinishJoin#*: ghost released := released + (callarg1 ? 1 : 0)
+//@   ensures local-a-node-that-is-not-inactive-does-nothing: !took ==> (err != nil && joins == 0 && backInactive == 0 && active == 0)
+//@   ensures local-a-failed-join-returns-to-inactive-and-reports-the-error: (took && jerr != nil) ==> (err == jerr && backInactive == 1 && active == 0 && advisory == 0 && released == 0)
+//@   ensures local-a-successful-join-ends-active-with-both-neighbours-told: (took && joins == 1 && jerr == nil) ==> (err == nil && advisory == 1 && active == 1 && released == 1 && backInactive == 0)
+
+// executeJoin's result on success (what Join relies on): a predecessor and at least one successor
+//@ func (n *LocalNode) executeJoin(peer chord.VNode) (predecessor chord.VNode, successors []chord.VNode, err error)
+//@   trusted
+//@   ensures err == nil ==> (predecessor != nil && len(successors) >= 1 && successors[0] != nil)
+
+// Leave: every attempt is executeLeave (which releases what it took when it fails, see above). When the retries are
+// exhausted nothing else happens: no state change, no neighbour call (the node keeps serving). After a successful
+// attempt the predecessor is told to stabilize, then the node becomes Left, then the successor's lock is released.
+//@ func (n *LocalNode) Leave()
+//@   opt frame=off
+//@   safety off
+//@   requires started: n.state != nil && n.state.history != nil
+//@   ghost dos int = 0
+//@   ghost derr error = nil
+//@   ghost sets int = 0
+//@   ghost advisory int = 0
+//@   ghost released int = 0
+//@   ghost stopped int = 0
+//@   at after call Do#*: ghost derr := callresult
+//@   at after call Do#*: ghost dos := dos + 1
+//@   at call Set#*: assert the-node-becomes-left-only-after-a-successful-attempt-and-after-the-advisory: callarg0 == n.state && callarg1 == chord.Left && dos == 1 && derr == nil && sets == 0 && released == 0
+//@   at call Set#*: ghost sets := sets + 1
+//@   at call FinishLeave#*: assert predecessor-advisory-before-left-successor-release-after: dos == 1 && derr == nil && ((callarg0 == true && callarg1 == false && any(callrecv) == any(pre) && sets == 0 && advisory == 0) || (callarg0 == false && callarg1 == true && any(callrecv) == any(succ) && sets == 1 && released == 0))
+//@   at call FinishLeave#*: ghost advisory := advisory + (callarg0 ? 1 : 0)
+//@   at call FinishLeave#*: ghost released := released + (callarg1 ? 1 : 0)
+//@   at $1/call close#1: assert tasks-stop-only-after-the-node-left: dos == 1 && derr == nil && sets == 1
+//@   at $1/call close#1: ghost stopped := stopped + 1
+//@   ensures local-giving-up-changes-nothing: (dos == 0 || derr != nil) ==> (sets == 0 && advisory == 0 && released == 0 && stopped == 0)
+//@   ensures local-a-successful-leave-ends-left-and-stops-the-tasks: (dos == 1 && derr == nil) ==> (sets == 1 && stopped == 1)
+//@   ensures local-the-successor-lock-is-released-unless-the-node-was-alone: (dos == 1 && derr == nil && succ != nil && succ.ID() != n.ID()) ==> released == 1
+
+// ---- C03 / C05: key hand-over. Keys leave the local store only after the receiving node acknowledged the import of
+// exactly those keys with the values exported for them; any failure before that returns the error with nothing
+// removed. The moved range is (low, new predecessor] on a join (low = the previous predecessor) and the whole store
+// on a leave; that RangeKeys/Export/Import/RemoveKeys do what they say is decided per backend (C15, C17, C19).
+//@ func (n *LocalNode) transferKeysUpward(ctx context.Context, prevPredecessor chord.VNode, newPredecessor chord.VNode) (err error)
+//@   opt frame=off
+//@   safety off
+//@   use ids48
+//@   requires newPredecessor != nil && n.ID() < 281474976710656
+//@   ghost ranged int = 0
+//@   ghost rkeys [][]byte
+//@   ghost rerr error = nil
+//@   ghost exported int = 0
+//@   ghost xvals []*protocol.KVTransfer
+//@   ghost xerr error = nil
+//@   ghost imported int = 0
+//@   ghost ierr error = nil
+//@   ghost removed int = 0
+//@   ghost inRange bool = false
+//@   at call Between#*: assert the-new-predecessor-must-lie-strictly-between-the-previous-one-and-this-node: callarg0 == (prevPredecessor == nil ? n.ID() : prevPredecessor.ID()) && callarg1 == newPredecessor.ID() && callarg2 == n.ID() && callarg3 == false
+//@   at after call Between#*: ghost inRange := callresult
+//@   at call RangeKeys#*: assert selects-the-range-from-the-previous-predecessor-up-to-and-including-the-new-one: any(callrecv) == any(n.kv) && ranged == 0 && callarg1 == (prevPredecessor == nil ? n.ID() : prevPredecessor.ID()) && callarg2 == newPredecessor.ID() && inRange
+//@   at after call RangeKeys#*: ghost rkeys := callresult0
+//@   at after call RangeKeys#*: ghost rerr := callresult1
+//@   at after call RangeKeys#*: ghost ranged := ranged + 1
+//@   at call Export#*: assert exports-exactly-the-selected-keys: any(callrecv) == any(n.kv) && ranged == 1 && rerr == nil && exported == 0 && callarg1 == rkeys && len(rkeys) > 0
+//@   at after call Export#*: ghost xvals := callresult0
+//@   at after call Export#*: ghost xerr := callresult1
+//@   at after call Export#*: ghost exported := exported + 1
+//@   at call Import#*: assert imports-the-selected-keys-with-their-exported-values-into-the-new-predecessor: any(callrecv) == any(newPredecessor) && exported == 1 && xerr == nil && imported == 0 && callarg1 == rkeys && callarg2 == xvals
+//@   at after call Import#*: ghost ierr := callresult
+//@   at after call Import#*: ghost imported := imported + 1
+//@   at call RemoveKeys#*: assert removes-locally-only-what-the-receiver-acknowledged: any(callrecv) == any(n.kv) && imported == 1 && ierr == nil && removed == 0 && callarg1 == rkeys
+//@   at call RemoveKeys#*: ghost removed := removed + 1
+//@   ensures local-a-failure-is-returned-and-nothing-was-removed: ((ranged == 1 && rerr != nil) ==> (err == rerr && removed == 0)) && ((exported == 1 && xerr != nil) ==> (err == xerr && removed == 0)) && ((imported == 1 && ierr != nil) ==> (err == ierr && removed == 0))
+//@   ensures local-success-means-nothing-to-move-or-moved-and-removed: err == nil ==> (ranged == 0 || (rerr == nil && (len(rkeys) == 0 || (imported == 1 && ierr == nil && removed == 1))))
+
+//@ func (n *LocalNode) transferKeysDownward(ctx context.Context, successor chord.VNode) (err error)
+//@   opt frame=off
+//@   safety off
+//@   requires successor != nil
+//@   ghost ranged int = 0
+//@   ghost rkeys [][]byte
+//@   ghost rerr error = nil
+//@   ghost exported int = 0
+//@   ghost xvals []*protocol.KVTransfer
+//@   ghost xerr error = nil
+//@   ghost imported int = 0
+//@   ghost ierr error = nil
+//@   ghost removed int = 0
+//@   at call RangeKeys#*: assert selects-the-whole-store: any(callrecv) == any(n.kv) && ranged == 0 && callarg1 == 0 && callarg2 == 0
+//@   at after call RangeKeys#*: ghost rkeys := callresult0
+//@   at after call RangeKeys#*: ghost rerr := callresult1
+//@   at after call RangeKeys#*: ghost ranged := ranged + 1
+//@   at call Export#*: assert exports-exactly-the-selected-keys: any(callrecv) == any(n.kv) && ranged == 1 && rerr == nil && exported == 0 && callarg1 == rkeys && len(rkeys) > 0
+//@   at after call Export#*: ghost xvals := callresult0
+//@   at after call Export#*: ghost xerr := callresult1
+//@   at after call Export#*: ghost exported := exported + 1
+//@   at call Import#*: assert imports-the-selected-keys-with-their-exported-values-into-the-successor: any(callrecv) == any(successor) && exported == 1 && xerr == nil && imported == 0 && callarg1 == rkeys && callarg2 == xvals
+//@   at after call Import#*: ghost ierr := callresult
+//@   at after call Import#*: ghost imported := imported + 1
+//@   at call RemoveKeys#*: assert removes-locally-only-what-the-receiver-acknowledged: any(callrecv) == any(n.kv) && imported == 1 && ierr == nil && removed == 0 && callarg1 == rkeys
+//@   at call RemoveKeys#*: ghost removed := removed + 1
+//@   ensures local-a-failure-is-returned-and-nothing-was-removed: ((ranged == 1 && rerr != nil) ==> (err == rerr && removed == 0)) && ((exported == 1 && xerr != nil) ==> (err == xerr && removed == 0)) && ((imported == 1 && ierr != nil) ==> (err != nil && removed == 0))
+//@   ensures local-success-means-nothing-to-move-or-moved-and-removed: err == nil ==> (ranged == 1 && rerr == nil && (len(rkeys) == 0 || (imported == 1 && ierr == nil && removed == 1)))
